@@ -185,7 +185,7 @@ def record(box, phase):
     rp = os.path.join(common.scratch("c10rec"), "rec-%d-%s.pkl" % (os.getpid(), phase))
     how, rec = run_in_child(box, phase_fn(box, phase), record_path=rp)
     if how != "ok" or rec is None or rec["exc"]:
-        raise RuntimeError("recording phase %s failed: %s %r" % (phase, how, rec))
+        raise common.LibraryFailure("the uninterrupted phase %s (%s crop) fails: %s %r" % (phase, box.farmer, how, rec))
     return [tuple(op) for op in rec["trace"]]
 
 
